@@ -89,6 +89,7 @@ def _read_prefix(open_reader):
     """Iterate a reader, return (records yielded, exception or None)."""
     out = []
     exc = None
+    rd = None
     try:
         rd = open_reader()
         for r in rd:
@@ -97,6 +98,22 @@ def _read_prefix(open_reader):
         if isinstance(e, (KeyboardInterrupt, SystemExit, MemoryError)):
             raise
         exc = e
+    # a reader that reached the end of its input is exhausted: iterating the same object once more (a retry /
+    # polling loop) must not produce records again.  (After an exception nothing is claimed about resuming.)
+    if rd is not None and exc is None:
+        again = []
+        try:
+            for r in rd:
+                again.append(r)
+                if len(again) > 3:
+                    break
+        except BaseException as e:  # noqa: B902
+            if isinstance(e, (KeyboardInterrupt, SystemExit, MemoryError)):
+                raise
+        if again:
+            raise Violation("reader/second-iteration-yields-records", "after the first pass (%d records, %s) a second "
+                            "iteration of the same reader yielded %d more record(s): %r"
+                            % (len(out), "raised %r" % (exc,) if exc else "ended", len(again), again[0]))
     return out, exc
 
 
